@@ -1204,7 +1204,8 @@ lyd_diff_insert(struct lyd_node **first_node, struct lyd_node *parent_node, stru
         LY_CHECK_RET(lyd_insert_after(anchor, new_node));
         assert(new_node->prev == anchor);
         if (*first_node == new_node) {
-            *first_node = anchor;
+            /* the first sibling was moved, the anchor need not be the one that followed it */
+            *first_node = lyd_first_sibling(anchor);
         }
     } else {
         /* find the first instance */
